@@ -14,6 +14,12 @@ Arrangement (protocol: see the head of harness/sockaddr.c):
      differs from the Lean one, or a library answer that differs from the platform view, shows up as a
      spec difference.  Replay files contain the annotated lines and are self-contained.
 
+Platform text model (PV.Model.Inet6Text, theorems PV.Props.C17text): the ops `ntop6` / `ntop4` / `pton` do not call the
+library.  The harness answers them with the real inet_ntop / inet_pton / getaddrinfo, the driver with the Lean model of
+those functions, for every address the `text` generators use, for all 256 zero/non-zero group patterns, and for the valid /
+malformed string stream.  The spec view of such a line is empty (the property says nothing about it), so a difference is
+a correspondence break of that model (kind `model`), never a finding about the library.
+
 Every native buffer given to the library is a heap block of exactly the stated size (ASan = the oracle for
 "no access beyond the buffer"); the model predicts such an access as `fault`.
 """
@@ -79,6 +85,62 @@ def text_forms(rng, a16):
         forms.append("::ffff:" + str(ip.ipv4_mapped))
     forms.append(":".join(ip.exploded.split(":")[:6]) + ":" + ".".join(str(x) for x in bytes(a16)[12:]))
     return forms
+
+
+def groups(gs):
+    return b"".join(int(x).to_bytes(2, "big") for x in gs)
+
+
+def format_rule_v6(rng):
+    """addresses aimed at the formatting rules of inet_ntop (AF_INET6)"""
+    out = []
+    digit_classes = [1, 0xf, 0x10, 0xff, 0x100, 0xfff, 0x1000, 0xffff, 0xa, 0xabcd, 0x9, 0xfffe]
+    for pat in range(256):                   # every zero / non-zero pattern of the eight groups
+        nz = [i for i in range(8) if pat >> i & 1]
+        out.append(groups([1 if i in nz else 0 for i in range(8)]))
+        out.append(groups([0xffff if i in nz else 0 for i in range(8)]))
+        out.append(groups([rng.choice(digit_classes) if i in nz else 0 for i in range(8)]))
+        out.append(groups([rng.randrange(1, 65536) if i in nz else 0 for i in range(8)]))
+    # ties between runs of equal length, a single zero group, runs at both ends
+    out += [groups(g) for g in ([1, 0, 0, 2, 3, 0, 0, 4], [1, 0, 0, 2, 0, 0, 0, 4], [1, 0, 0, 0, 2, 0, 0, 4], [0, 0, 1, 2, 3, 4, 0, 0], [0, 0, 1, 0, 0, 2, 0, 0],
+                                [1, 0, 2, 3, 4, 5, 6, 7], [0, 1, 2, 3, 4, 5, 6, 7], [1, 2, 3, 4, 5, 6, 7, 0], [1, 0, 2, 0, 3, 0, 4, 0], [0, 1, 0, 2, 0, 3, 0, 4],
+                                [0, 0, 0, 1, 0, 0, 0, 2], [0, 0, 0, 0, 1, 0, 0, 0], [1, 0, 0, 0, 0, 0, 0, 0], [0, 0, 0, 0, 0, 0, 0, 1], [0, 0, 0, 0, 0, 0, 1, 0])]
+    # the dotted tail: run 0..5 (v4-compatible), run 0..4 + ffff (v4-mapped), and everything just beside those
+    tails = [(0, 0), (0, 1), (1, 0), (0x0102, 0x0304), (0xffff, 0xffff), (0x7f00, 0x0001), (0x0a0b, 0), (0, 0x0100), (0xc0a8, 0x0001), (0x0900, 0x6309)]
+    for t6, t7 in tails:
+        for g5 in (0, 0xffff, 0xfffe, 1, 0xfff, 0xff):
+            out.append(groups([0, 0, 0, 0, 0, g5, t6, t7]))
+        out.append(groups([0, 0, 0, 0, 0xffff, 0, t6, t7]))
+        out.append(groups([0, 0, 0, 0, 1, 0xffff, t6, t7]))
+        out.append(groups([1, 0, 0, 0, 0, 0xffff, t6, t7]))
+        out.append(groups([1, 0, 0, 0, 0, 0, t6, t7]))
+        out.append(groups([0x64, 0xff9b, 0, 0, 0, 0, t6, t7]))
+    return out
+
+
+PTON_AIMED = ["", ":", "::", ":::", "::::", "1", "1:", ":1", "::1", "1::", "1::2::3", "::1::", "1::2:3::", "12345::", "::12345", "1:12345::", "::00001", "::0000", "0000::",
+              "1:2:3:4:5:6:7:8:9", "1:2:3:4:5:6:7:8", "1:2:3:4:5:6:7", "1:2:3:4:5:6:7:", ":1:2:3:4:5:6:7", "1:2:3:4:5:6:7::", "::1:2:3:4:5:6:7", "1:2:3:4:5:6:7:8::", "::1:2:3:4:5:6:7:8",
+              "1:2:3:4::5:6:7:8", "1:2:3::5:6:7:8", "1::8:", ":1::8", "ABCD::EF01", "AbCd::eF01", "abcd::ef01", "g::", "::g", "::G", "G::", "::@", "::`", "::/", "::1g", "::fG", "1:G::", "::ffff:1.2.3.G", "::1.2.3.4G", "::9:", "::a:", "::f:", "::F", "::A", "::a", "::f", "::-1", "::+1", "::0x1", ":: 1", "::1 ", " ::1", "::1\n", "::1\t",
+              "1:2:3:4:1.2.3.4:5", "1.2.3.4::", "1.2.3.4:1::", "::1.2.3.4", "::1.2.3.4:5", "::1.2.3.4::", "1::1.2.3.4", "1:2:3:4:5:6:1.2.3.4", "1:2:3:4:5:6:7:1.2.3.4", "1:2:3:4:5:1.2.3.4",
+              "1:2:3:4:5::1.2.3.4", "1:2:3:4:5:6::1.2.3.4", "::ffff:1.2.3.4", "::FFFF:1.2.3.4", "::ffff:01.2.3.4", "::ffff:1.02.3.4", "::ffff:1.2.3.04", "::ffff:1.2.3.256", "::ffff:256.2.3.4",
+              "::ffff:1.2.3", "::ffff:1.2.3.4.5", "::ffff:1.2.3.", "::ffff:.1.2.3", "::ffff:1..2.3", "::ffff:1.2.3.4.", "::a.2.3.4", "::1.a.3.4", "::12345.2.3.4", "::1234.2.3.4", "::0.0.0.0",
+              "::255.255.255.255", "::00.0.0.0", "::0.0.0.00", "::1.2.3.4 ", "::1.2.3.4%1", "::%1", "fe80::1%lo", "1.2.3.4", "1.2.3", "0:0:0:0:0:0:0:0", "0:0:0:0:0:0:0::", "::0:0:0:0:0:0:0",
+              "0::0", "0:0::0:0", "00:000:0000::", "f:f:f:f:f:f:f:f", "ffff:ffff:ffff:ffff:ffff:ffff:ffff:ffff", "ffff:ffff:ffff:ffff:ffff:ffff:255.255.255.255", "fffff::", "::ffff1",
+              "1:2:3:4:5:6:7:8%1", "[::1]", "::1/64", "::1\x00:2", "1:::2", "1::2:", "1::2::", ".::", "::.", "::1.", "::.1", "1:2:3:4:5:6:7.8", "1:2:3:4:5:6:7:8.9", "::1.2.3.4.5.6", "::1:2.3.4.5"]
+
+
+def mutate(rng, b, alphabet):
+    b = bytearray(b)
+    for _ in range(rng.choice([1, 1, 1, 2, 3])):
+        r = rng.random()
+        i = rng.randrange(len(b) + 1)
+        if r < 0.35 and b:
+            del b[min(i, len(b) - 1)]
+        elif r < 0.7:
+            b.insert(i, rng.choice(alphabet))
+        elif b:
+            b[min(i, len(b) - 1)] = rng.choice(alphabet)
+    return bytes(b)
 
 
 SCOPES = ["%1", "%lo", "%eth9", "%0", "%4294967295", "%4294967296", "%", "%%", "%-1", "%1 ", "%01", "%0x1", "%lo0"]
@@ -167,6 +229,15 @@ def annotate(exe, cases):
     return res
 
 
+PLATFORM_MODEL_OPS = ("ntop6", "ntop4", "pton")
+
+
+def spec_view(op, line):
+    """the property says nothing about the lines of the platform-model ops: a difference there is between glibc and its
+    Lean model (kind `model`, a correspondence break), not between the library and the spec"""
+    return "" if op.split(" ", 1)[0] in PLATFORM_MODEL_OPS else line
+
+
 def signature_of(ops, r):
     real = [o for o in ops if o != "reset"]
     if len(real) == 1:
@@ -191,7 +262,7 @@ def replay(chk, path):
     ok, out = pv.lake_build(["pvdriver"])
     exe = pv.build_harness("sockaddr", cfg, ["sockaddr.c"], repo_files=None, san="asan")
     ops = [l.rstrip("\n") for l in open(path) if l.strip() and not l.startswith("#")]
-    r = diffrun.judge(diffrun.Family("sockaddr", exe, timeout=300), ops)
+    r = diffrun.judge(diffrun.Family("sockaddr", exe, timeout=300, spec_view=spec_view), ops)
     if r is None:
         print("replay: implementation, model and spec agree on %d ops" % len(ops))
         return 0
@@ -201,7 +272,7 @@ def replay(chk, path):
 
 def run(chk):
     cfg = pv.repo_config()
-    proof_ok, driver_ok, detail = pv.proof_stage(chk, ["PV.Props.C17"])
+    proof_ok, driver_ok, detail = pv.proof_stage(chk, ["PV.Props.C17", "PV.Props.C17text"])
     if any(d.startswith("extractor: C17 ") or "gen_sockaddr" in d for d in detail):
         # the translator refused the current source: PV.Generated.SockAddr is the last one it could produce,
         # so the theorems (even if they still build) are not about this code
@@ -212,7 +283,7 @@ def run(chk):
     except pv.BuildError as e:
         chk.violation(str(e), "harness for C17 does not build against the current source", no_input=True, suffix="txt")
         return finish(chk)
-    fam = diffrun.Family("sockaddr", exe, timeout=300)
+    fam = diffrun.Family("sockaddr", exe, timeout=300, spec_view=spec_view)
     thorough = chk.tier == "thorough"
     rng = chk.rng
     ops = []          # flat list of op lines, grouped into cases below
@@ -252,18 +323,25 @@ def run(chk):
     n4 = 0
     for i, a in enumerate(itertools.product(EDGE, repeat=4)):
         add("text " + v4(a, PORTS[i % len(PORTS)]), "v4:boundary")
+        add("ntop4 " + hx(a), "platform-model:ntop4")
         n4 += 1
     for p in PORTS + [rng.randrange(65536) for _ in range(20)]:
         add("text " + v4([127, 0, 0, 1], p), "v4:port")
         add("text " + v6(s6[1], p, 0, 0), "v6:port")
     nrand4 = 1000000 if thorough else 100000
-    for _ in range(nrand4):
-        add("text " + v4(rng.randrange(2**32).to_bytes(4, "big"), rport(rng)), "v4:random")
+    for i in range(nrand4):
+        a = rng.randrange(2**32).to_bytes(4, "big")
+        add("text " + v4(a, rport(rng)), "v4:random")
+        if i % 4 == 0:
+            add("ntop4 " + hx(a), "platform-model:ntop4")
     # ---- IPv6: structured + random, flow / scope classes
     for a in s6:
         for fl, sc in ((0, 0), (1, 1), (2**32 - 1, 2**32 - 1), (ru32(rng), ru32(rng))):
             add("text " + v6(a, rport(rng), fl, sc), "v6:structured")
         add("setfs %s %d %d" % (v6(a, rport(rng), ru32(rng), ru32(rng)), ru32(rng), ru32(rng)), "setfs:v6")
+        add("ntop6 " + hx(a), "platform-model:ntop6")
+        for t in text_forms(rng, a):
+            add("pton " + hx(t.encode()), "platform-model:pton")
         for t in text_forms(rng, a):
             for suffix in ("", "%1", "%lo", "%%%d" % ru32(rng)):
                 add("new %s %d" % (hx((t + suffix).encode()), rport(rng)), "new:v6-forms")
@@ -279,11 +357,27 @@ def run(chk):
             a[:10] = bytes(10)
             a[10:12] = rng.choice([b"\xff\xff", b"\x00\x00"])
         add("text " + v6(a, rport(rng), ru32(rng), ru32(rng)), "v6:random")
+        add("ntop6 " + hx(a), "platform-model:ntop6")
+    # ---- the formatting rules of inet_ntop (AF_INET6): through the library and against the Lean model of glibc
+    fr = format_rule_v6(rng)
+    for a in fr:
+        add("text " + v6(a, rport(rng), 0, 0), "v6:format-rules")
+        add("ntop6 " + hx(a), "platform-model:ntop6")
+    # ---- inet_pton / getaddrinfo against the Lean model: aimed malformed strings, every text form, mutations of real texts
+    for t in PTON_AIMED:
+        add("pton " + hx(t.encode("latin-1")), "platform-model:pton")
+    alphabet6 = b"0123456789abcdefABCDEF.:::..%xg -/@G`\x00\xff"
+    for _ in range(20000 if thorough else 4000):
+        a = rng.choice(fr) if rng.random() < 0.7 else bytes(rng.randrange(256) for _ in range(16))
+        t = rng.choice(text_forms(rng, a)).encode()
+        add("pton " + hx(t), "platform-model:pton")
+        add("pton " + hx(mutate(rng, t, alphabet6)), "platform-model:pton")
     for _ in range(200):
         add("setfs %s %d %d" % (v4(rng.randrange(2**32).to_bytes(4, "big"), rport(rng)), ru32(rng), ru32(rng)), "setfs:v4")
     # ---- creation from arbitrary strings
     for s in string_corpus(rng, 20000 if thorough else 3000):
         add("new %s %d" % (hx(s), rport(rng)), "new:string")
+        add("pton " + hx(s), "platform-model:pton")
     for _ in range(5000 if thorough else 500):   # valid dotted quads with/without leading zeros
         a = [rng.choice(EDGE + [rng.randrange(256)]) for _ in range(4)]
         fmt = rng.choice(["%d.%d.%d.%d", "%d.%d.%d.%d", "%02d.%d.%d.%d", "%d.%03d.%d.%d", "%d.%d.%d.%04d", "%d.%d.%d", "%d.%d.%d.%d."])
@@ -321,8 +415,12 @@ def run(chk):
                        "a case is distinct by the hash of its op lines; `ops` is the number of op lines" % (nrand4, nrand6))
     chk.cov["exhaustive"] = False
     chk.assumptions += ["Linux x86-64 layout of sockaddr_in / sockaddr_in6 as measured by the translator's offsetof probe (PV.Generated.SA)",
-                        "inet_pton / inet_ntop / getaddrinfo (AI_NUMERICHOST) are parameters of the model; their answers are taken from this platform "
+                        "inet_pton / inet_ntop / getaddrinfo (AI_NUMERICHOST) are parameters of the library model; their answers are taken from this platform "
                         "(glibc) per input; IPv4 text is additionally checked against the concrete Lean functions ntop4/pton4",
+                        "PV.Props.C17text discharges the platform contract pton6 (ntop6 a) = some a for a Lean model of glibc's inet_ntop / inet_pton / numeric "
+                        "getaddrinfo (PV.Model.Inet6Text, written after glibc's sources); that this model is what the platform does is checked by the differential "
+                        "only (ops ntop6 / ntop4 / pton: every generated address, all 256 zero-group patterns, valid / malformed / mutated strings; "
+                        "getaddrinfo on strings with ':' and without '%' only)",
                         "allocation failure is not part of this check (C18 covers allocation)",
                         "interface-name scopes (%lo) depend on the interfaces present in the sandbox; numeric scopes do not"]
     return finish(chk)
